@@ -34,6 +34,24 @@ CORPUS = [
 ]
 
 
+
+def own_add_months(t, k):
+    """(d, m, y) + k months, day clipped to the month's length — computed here, not with the implementation, so that
+    test inputs do not depend on the code under test"""
+    import calendar as _cal
+    d, m, y = t
+    idx = y * 12 + (m - 1) + k
+    yy, mm = divmod(idx, 12)
+    mm += 1
+    return (min(d, _cal.monthrange(yy, mm)[1]), mm, yy)
+
+
+def own_add_days(t, n):
+    import datetime as _dt
+    x = _dt.date(t[2], t[1], t[0]) + _dt.timedelta(days=n)
+    return (x.day, x.month, x.year)
+
+
 def fmtl(ds):
     return ','.join(f'{d.d}-{d.m}-{d.y}' for d in ds)
 
@@ -209,7 +227,7 @@ def inheritance(ctx, rng, drivers_ok=True):
     for t in D.interesting_dates(rng, n, 1990, 2060):
         e = Date(*t)
         months = rng.choice([6, 12, 18, 24, 60, 120, 37])
-        tt = e.add_months(months)
+        tt = Date(*own_add_months(t, months))
         f = rng.choice(freqs)
         cal = rng.choice(list(CalendarTypes))
         cv = rng.choice(list(BusDayAdjustTypes))
@@ -288,12 +306,11 @@ def inheritance_more(ctx, rng, drivers_ok=True):
         ((21, 3, 2010), (20, 3, 2010), Q, CalendarTypes.WEEKEND, BusDayAdjustTypes.FOLLOWING, BW),   # step-in after maturity
     ]
     for t in D.interesting_dates(rng, n, 1990, 2060):
-        e = Date(*t)
         months = rng.choice([6, 12, 18, 24, 60, 37, 3, 1])
-        tt = e.add_months(months)
+        t2_ = own_add_months(t, months)
         if rng.random() < 0.3:
-            tt = tt.add_days(rng.randint(1, 40))
-        cases.append((t, (tt.d, tt.m, tt.y), rng.choice(freqs), rng.choice(list(CalendarTypes)),
+            t2_ = own_add_days(t2_, rng.randint(1, 40))
+        cases.append((t, t2_, rng.choice(freqs), rng.choice(list(CalendarTypes)),
                       rng.choice(list(BusDayAdjustTypes)), rng.choice(list(DateGenRuleTypes))))
     for t, t2, f, cal, cv, dg in cases:
         e, tt = Date(*t), Date(*t2)
